@@ -23,18 +23,20 @@ USER = ['myverb', 'code*', 'minted', 'usr']
 ALPHA = ['a', ' ', '\n', '{', '}', '$', '\\begin{x}', '\\end{y}', '[', ']',
          '\\ghost', '\\ghost{z}', '%c\n', '\\', '$$', '\\[', '\\(', '\\item',
          '\\end', '\\end{', '\\begin{N}', '\\begin{itemize}', '\\\\', '\\%', '&',
-         '\t', '\n\n', '\\end {N}', 'é', '}}', ']]', '\\textbf']
+         '\t', '\n\n', '\\end {N}', 'é', '}}', ']]', '\\textbf', '\\end{Nx}',
+         '\\end{N*}', '\\end{xN}', '\\end{N', '\\end{N }']
 OUTER = [('', ''), ('pre \\keep{1} ', ' post \\keep{2}'),
          ('\\begin{center}c ', ' d\\end{center}'),
          ('\\begin{a}\\begin{b}[o]{r}', '\\end{b} t\\end{a}'),
          ('\\begin{a}\\begin{b}\\begin{center}\n', '\n\\end{center}\\end{b}\\end{a}%eof'),
-         ('\\begin{equation}m ', ' n\\end{equation}')]
+         ('\\begin{equation}m ', ' n\\end{equation}'),
+         ('\\begin{a}p \\keep{1} q {g} r $m$ s \\keep{2} t ', ' u\\end{a}')]
 _LEAD = re.compile(r'[ \t]*\n?[ \t]*[\[{]')
 
 
 def make_body(rng, name, lead_ws_group=False):
     body = ''.join(rng.choice(ALPHA) for _ in range(rng.randint(0, 8)))
-    body = body.replace('N}', name + '}')
+    body = body.replace('{N', '{' + name).replace('N}', name + '}')
     body = docgen.fix_verbatim(name, body)
     if lead_ws_group:
         body = rng.choice([' ', '\n', ' \n ', '\t']) + rng.choice('{[') + body
